@@ -190,6 +190,8 @@ class Gen:
         if depth > 0 and r < 0.15:
             return self.list_of(lambda: self.item(depth - 1))
         r = self.rng.random()
+        if r < 0.04 and self.allow_never:
+            return {'name': None, 'value': {'word': '*'}}        # `*`: any argument (finding K1 territory when there is none)
         if r < 0.3:
             return {'name': self.wl(self.v['argnames'] or ['x'], 1), 'value': None}
         if r < 0.65:
